@@ -41,6 +41,8 @@ class Report:
             self.samples.append(sample)
 
     def violated(self, rule, key, what, detail=None):
+        if any(v["key"] == "%s:%s" % (rule, key) for v in self.violations):
+            return
         self.violations.append({"rule": rule, "key": "%s:%s" % (rule, key), "what": what, "detail": detail})
 
     def undecide(self, rule, key, why):
